@@ -192,32 +192,46 @@ int main(int argc, char **argv)
       struct op *ops; int nops = ops_enumerate(t0, &sc, &ops);
       hwloc_topology_destroy(t0);
       struct strset seen; strset_init(&seen);
-      for (int i = 0; i < nops && !mc_deadline(); i++, idx++) {
-        if (!mc_mine(idx)) continue;
+      { hwloc_topology_t tr = hist_build(&h0); if (tr) { char *kr = canon_str(tr, CANON_STRUCT); strset_add(&seen, kr, strlen(kr)); free(kr); hwloc_topology_destroy(tr); } }   /* a refused or merged insertion leaves the root: not a new state */
+      static int fresh1[4096]; int nfresh1 = 0;
+      static struct sb hb; if (!hb.s) sb_init(&hb);
+      for (int i = 0; i < nops && !mc_deadline(); i++) {
         struct hist h1 = h0; h1.ops[h1.n++] = ops[i];
         hwloc_topology_t t1 = NULL;
         if (MC_TRY(30000)) { t1 = hist_build(&h1); mc_try_end(); }
         if (mc_fault[0] || !t1) { mc_fault[0] = 0; mc_clear_san(); continue; }
         char *key = canon_str(t1, CANON_STRUCT); int fresh = strset_add(&seen, key, strlen(key)); free(key);
         if (fresh) {
-          static struct sb hb; if (!hb.s) sb_init(&hb); sb_reset(&hb); hist_print(&hb, &h1);
-          level_texts(t1, hb.s);
-          for (hwloc_obj_t g = hwloc_get_next_obj_by_type(t1, HWLOC_OBJ_GROUP, NULL); g; g = hwloc_get_next_obj_by_type(t1, HWLOC_OBJ_GROUP, g)) one_object(t1, g, hb.s);
-          /* a second insertion on top of the first (lean alphabet of the new state) */
-          struct op *ops2; int nops2 = ops_enumerate(t1, &sc, &ops2);
-          for (int j = 0; j < nops2 && !mc_deadline(); j++) {
-            struct hist h2 = h1; h2.ops[h2.n++] = ops2[j];
-            hwloc_topology_t t2 = NULL;
-            if (MC_TRY(30000)) { t2 = hist_build(&h2); mc_try_end(); }
-            if (mc_fault[0] || !t2) { mc_fault[0] = 0; mc_clear_san(); continue; }
-            char *k2 = canon_str(t2, CANON_STRUCT); int fresh2 = strset_add(&seen, k2, strlen(k2)); free(k2);
-            if (fresh2) { sb_reset(&hb); hist_print(&hb, &h2); level_texts(t2, hb.s); mc_count("group_states_depth2", 1); }
-            hwloc_topology_destroy(t2);
+          if (nfresh1 < 4096) fresh1[nfresh1++] = i;
+          if (mc_mine(idx++)) {
+            sb_reset(&hb); hist_print(&hb, &h1);
+            level_texts(t1, hb.s);
+            for (hwloc_obj_t g = hwloc_get_next_obj_by_type(t1, HWLOC_OBJ_GROUP, NULL); g; g = hwloc_get_next_obj_by_type(t1, HWLOC_OBJ_GROUP, g)) one_object(t1, g, hb.s);
+            mc_count("group_states_depth1", 1);
           }
-          free(ops2);
-          mc_count("group_states_depth1", 1);
         }
         hwloc_topology_destroy(t1);
+      }
+      /* a second insertion on top of every distinct depth-1 state */
+      for (int f = 0; f < nfresh1 && !mc_deadline(); f++, idx++) {
+        if (!mc_mine(idx)) continue;
+        struct hist h1 = h0; h1.ops[h1.n++] = ops[fresh1[f]];
+        hwloc_topology_t t1 = NULL;
+        if (MC_TRY(30000)) { t1 = hist_build(&h1); mc_try_end(); }
+        if (mc_fault[0] || !t1) { mc_fault[0] = 0; mc_clear_san(); continue; }
+        struct op *ops2; int nops2 = ops_enumerate(t1, &sc, &ops2);
+        hwloc_topology_destroy(t1);
+        struct strset seen2; strset_init(&seen2);
+        for (int j = 0; j < nops2 && !mc_deadline(); j++) {
+          struct hist h2 = h1; h2.ops[h2.n++] = ops2[j];
+          hwloc_topology_t t2 = NULL;
+          if (MC_TRY(30000)) { t2 = hist_build(&h2); mc_try_end(); }
+          if (mc_fault[0] || !t2) { mc_fault[0] = 0; mc_clear_san(); continue; }
+          char *k2 = canon_str(t2, CANON_STRUCT); int fresh2 = !strset_has(&seen, k2, strlen(k2)) && strset_add(&seen2, k2, strlen(k2)); free(k2);
+          if (fresh2) { sb_reset(&hb); hist_print(&hb, &h2); level_texts(t2, hb.s); mc_count("group_states_depth2", 1); }
+          hwloc_topology_destroy(t2);
+        }
+        free(ops2); strset_free(&seen2);
       }
       free(ops); strset_free(&seen);
     }
